@@ -255,7 +255,7 @@ macro_rules! set_fc_bit_field {
         pub fn $field(&mut self, val: bool) {
             let data = &mut self.buffer.as_mut()[field::FRAMECONTROL];
             let mut raw = LittleEndian::read_u16(data);
-            raw |= ((val as u16) << $bit);
+            raw = (raw & !(1 << $bit)) | ((val as u16) << $bit);
 
             data.copy_from_slice(&raw.to_le_bytes());
         }
@@ -970,6 +970,9 @@ impl Repr {
 
     /// Emit a high-level representation into an IEEE802.15.4 frame.
     pub fn emit<T: AsRef<[u8]> + AsMut<[u8]>>(&self, frame: &mut Frame<T>) {
+        // Make no assumptions about the original state of the buffer: the setters below
+        // only touch their own bits of the frame control field.
+        LittleEndian::write_u16(&mut frame.buffer.as_mut()[field::FRAMECONTROL], 0);
         frame.set_frame_type(self.frame_type);
         frame.set_security_enabled(self.security_enabled);
         frame.set_frame_pending(self.frame_pending);
